@@ -467,10 +467,13 @@ def orphanFreeB (c : Cluster) : Bool :=
 def exW : Id := { ns := "ns1", name := "w", group := "example.com", kind := "Widget" }
 def stOf (objs : List Live) (inv : List Id) : Cluster := { objs := objs, inv := some inv, invUid := "u0", nextUid := 7 }
 def runA : Run := { destroy := false, objs := [{ id := exA }], opts := { timeout := true } }
-/-- `DelScriptsOK`: with any other script value the environment keeps the object (finalizer) but the feed reports NotFound -/
+/-- `DelScriptsOK`: since `hasFinalizer` names the two finalizer scripts explicitly, an unknown script value means "no finalizer,
+the feed reports NotFound" (the default) and produces no orphan any more; the hypothesis is kept because the proofs go through the
+shapes of the three OK scripts, and because the fourth script, "replaced" (a Current report with a new UID), is excluded on purpose:
+with it a delete wait reports an object reconciled that is still there (`C05.scripted_replaced_reconciles`) -/
 example : orphanFreeB (stOf [{ id := exA, uid := "u1", gen := 1, owner := invId }, { id := exB, uid := "u2", gen := 1, owner := invId }] [exA, exB]) = true ∧
     orphanFreeB (runOne (stOf [{ id := exA, uid := "u1", gen := 1, owner := invId }, { id := exB, uid := "u2", gen := 1, owner := invId }] [exA, exB])
-      { runA with del := [(exB, "weird")] }).cl = false := by decide
+      { runA with del := [(exB, "weird")] }).cl = true := by decide
 /-- known kinds: a listed, annotated object of an unknown kind outside the apply set is skipped by `getPruneObjs` and dropped -/
 example : orphanFreeB (stOf [{ id := exA, uid := "u1", gen := 1, owner := invId }, { id := exW, uid := "u2", gen := 1, owner := invId }] [exA, exW]) = true ∧
     orphanFreeB (runOne (stOf [{ id := exA, uid := "u1", gen := 1, owner := invId }, { id := exW, uid := "u2", gen := 1, owner := invId }] [exA, exW]) runA).cl = false := by
